@@ -10,7 +10,7 @@
    a drained stream (true of every state of a run); [pending s]: the messages
    still owed to the caller, in server order. *)
 From Coq Require Import List.
-From Verif Require Import Rpc.Retry Rpc.RetryProofs.
+From Verif Require Import Rpc.Retry Rpc.RetryProofs Rpc.RetryOk.
 Import ListNotations.
 
 (* watch streams, all scripts, budgets and cancellation plans: the caller
@@ -60,6 +60,28 @@ Theorem C36_exhausted_run : forall m max script pl r t fin,
   exists tp tl, t = tp ++ tl /\ opens tl = S max /\ deliveries tl = [].
 Proof. exact retry_run_exhausted. Qed.
 Print Assumptions C36_exhausted_run.
+
+(* which streams a whole run opens (no cancellation, no hanging stream; n = streams that
+   reached the server): the last Max+1 of them are empty failing re-opens, the error of the
+   last one surfaces, and NO earlier window of Max+1 consecutive empty failing re-opens
+   exists -- the client neither gave up earlier nor went on longer than its budget *)
+Theorem C36_no_earlier_window : forall m max script r t fin,
+  need_retry m = true -> NoHang script -> run_stream m max script plain r = (t, fin) ->
+  let n := opens t in
+  S (S max) <= n /\
+  all_empty script (n - S max) (S max) = true /\
+  no_early_window script max 1 (n - S max - 1) = true /\
+  fin = err_of (s_end (nth_script script (n - 1))).
+Proof. exact plain_run_shape. Qed.
+Print Assumptions C36_no_earlier_window.
+
+(* the boolean check the harness evaluates on the implementation's answers accepts the
+   model's own output, for every such script and budget *)
+Theorem C36_ok_on_model : forall m max script t fin,
+  need_retry m = true -> NoHang script -> run m max script plain the_req = (t, fin) ->
+  ok (mkCase m max script plain (deliveries t) fin (opens t) (map (Nat.eqb the_req) (requests t))) = true.
+Proof. exact ok_on_model_plain. Qed.
+Print Assumptions C36_ok_on_model.
 
 (* a cancelled context is never retried at the server: RecvMsg after the
    cancellation opens nothing that reaches the server and returns context.Canceled *)
